@@ -5,10 +5,19 @@
   redo arms in base/src/user_model/undo_redo.rs (`NewSheet`, `DeleteSheet`, `DuplicateSheet`,
   `MoveSheet`, `SetSheetState`), including the history stacks of base/src/user_model/history.rs.
 
-  The model is of the code *after* the `fix:` commit for F28a (`selected_sheet_after_delete`); the
-  pinned behaviour is kept as `afterDeletePinned` for the negation theorem.  Not modelled: scrolling
-  (`top_row`, `left_column`, pixel geometry), page up/down, navigate-to-edge, keyboard range expansion
-  (they are covered by the oracle-only suite `c28-nav`), cell contents.
+  The model is of the code *after* the `fix:` commits for F28a (`selected_sheet_after_delete`) and
+  F28d/F28e (page up / page down clamp the row to the grid); the pinned behaviours are kept as
+  `afterDeletePinned`, `pageRowPinned` for the negation theorems.
+
+  Also modelled (second round): scrolling (`top_row`, `left_column`, `set_top_left_visible_cell`, window
+  width / height) with the pixel geometry of *default-sized* rows and columns (a hidden row / column
+  has size 0), page up / page down, `on_navigate_to_edge_in_direction` (over the set of non-empty
+  cells), `on_expand_selected_range`, the scrolling and failure behaviour of `on_area_selecting`,
+  `set_rows_hidden` / `set_columns_hidden` (which move the selection) and `set_user_input` of a plain
+  value, with their undo / redo arms.  Every `?` of the Rust code is an `Option` here: a failing inner
+  call aborts the command at that point (what was written before stays written).
+  Not modelled: custom row heights / column widths, frozen panes (ui.rs does not read them), several
+  views.
 -/
 namespace IronCalc.Selection
 
@@ -28,10 +37,13 @@ structure View where
   c1 : Int
   r2 : Int
   c2 : Int
+  /-- `top_row`, `left_column`: the first visible cell -/
+  top : Int
+  left : Int
 deriving DecidableEq, Repr
 
 /-- the view of a fresh worksheet (base/src/new_empty.rs::new_empty_worksheet) -/
-def View.default : View := ⟨1, 1, 1, 1, 1, 1⟩
+def View.default : View := ⟨1, 1, 1, 1, 1, 1, 1, 1⟩
 
 structure Sheet where
   /-- identity (stands for the sheet name / id; never compared with the implementation) -/
@@ -40,7 +52,12 @@ structure Sheet where
   view : View
   hidRows : List Int
   hidCols : List Int
+  /-- the non-empty cells (row, column) -/
+  filled : List (Int × Int)
 deriving DecidableEq, Repr
+
+/-- a worksheet as `new_empty_worksheet` makes it -/
+def Sheet.fresh (sid : Nat) : Sheet := ⟨sid, true, View.default, [], [], []⟩
 
 /-- the sheet-structure diffs of base/src/user_model/history.rs::Diff -/
 inductive Diff where
@@ -49,6 +66,11 @@ inductive Diff where
   | duplicateSheet (src new : Nat)
   | moveSheet (frm to : Nat)
   | setState (index : Nat) (old new : Bool)
+  /-- the `SetRowHidden` diffs of one `set_rows_hidden` call: (row, old value) and the new value -/
+  | setRowsHidden (sheet : Nat) (olds : List (Int × Bool)) (new : Bool)
+  | setColsHidden (sheet : Nat) (olds : List (Int × Bool)) (new : Bool)
+  /-- `SetCellValue` of a plain value: was the cell non-empty before -/
+  | setCell (sheet : Nat) (r c : Int) (old : Bool)
 deriving DecidableEq, Repr
 
 structure State where
@@ -57,9 +79,12 @@ structure State where
   undo : List Diff
   redo : List Diff
   nextId : Nat
+  /-- `WorkbookView.window_width / window_height` -/
+  winW : Int
+  winH : Int
 deriving Repr
 
-def State.init : State := ⟨0, [⟨0, true, View.default, [], []⟩], [], [], 1⟩
+def State.init : State := ⟨0, [Sheet.fresh 0], [], [], 1, 800, 600⟩
 
 inductive Dir where | left | right | up | down
 deriving DecidableEq, Repr
@@ -78,6 +103,16 @@ inductive Cmd where
   | moveSheet (frm to : Nat)
   | undo
   | redo
+  | setTopLeft (r c : Int)
+  | setWinW (w : Int)
+  | setWinH (h : Int)
+  | pageDown
+  | pageUp
+  | edge (d : Dir)
+  | expand (d : Dir)
+  | hideRows (sheet : Nat) (a b : Int) (hidden : Bool)
+  | hideCols (sheet : Nat) (a b : Int) (hidden : Bool)
+  | input (sheet : Nat) (r c : Int)
 deriving DecidableEq, Repr
 
 /-! ### index arithmetic -/
@@ -114,31 +149,83 @@ def modifyAt (l : List Sheet) (i : Nat) (f : Sheet → Sheet) : List Sheet :=
 def selSheet (s : State) (i : Nat) : State :=
   if i < s.sheets.length then { s with selected := i } else s
 
+/-- apply `f` to the sheet at index `i` (nothing happens when there is none) -/
+def modSheet (s : State) (i : Nat) (f : Sheet → Sheet) : State :=
+  { s with sheets := modifyAt s.sheets i f }
+
 def setView (s : State) (v : View) : State :=
   { s with sheets := modifyAt s.sheets s.selected (fun sh => { sh with view := v }) }
 
-/-- models ui.rs::set_selected_cell -/
-def selCell (s : State) (r c : Int) : State :=
-  if validCol c && validRow r then
-    match s.sheets[s.selected]? with
-    | some _ => setView s ⟨r, c, r, c, r, c⟩
+/-- the common shape of the ui.rs commands: look up the selected sheet (nothing happens when it
+    does not exist), compute the new view from it (`none` = the command returns early or fails
+    before writing), write the view -/
+def viewOp (s : State) (f : Sheet → Option View) : State :=
+  match s.sheets[s.selected]? with
+  | none => s
+  | some sh =>
+    match f sh with
     | none => s
-  else s
+    | some v => setView s v
+
+/-- loop fuels: more than the number of rows / columns, so that the bounded loops below run exactly
+    as long as the `while` loops they model (which stop, at the latest, on an index off the grid) -/
+@[irreducible] def rowFuel : Nat := 1048578
+@[irreducible] def colFuel : Nat := 16386
+
+/-- models ui.rs::set_selected_cell -/
+def cellView (v : View) (r c : Int) : Option View :=
+  if validCol c && validRow r then some { v with row := r, col := c, r1 := r, c1 := c, r2 := r, c2 := c }
+  else none
+
+def selCell (s : State) (r c : Int) : State := viewOp s fun sh => cellView sh.view r c
 
 /-- models ui.rs::set_selected_range: the four coordinates are validated; the selected cell must
     be on a corner (on one edge for full-row / full-column ranges) -/
-def selRange (s : State) (r1 c1 r2 c2 : Int) : State :=
+def rangeView (v : View) (r1 c1 r2 c2 : Int) : Option View :=
   if validCol c1 && validRow r1 && validCol c2 && validRow r2 then
-    match s.sheets[s.selected]? with
-    | some sh =>
-      let v := sh.view
-      let ok :=
-        if r1 = 1 ∧ r2 = LAST_ROW then decide (v.col = c1 ∨ v.col = c2)
-        else if c1 = 1 ∧ c2 = LAST_COLUMN then decide (v.row = r1 ∨ v.row = r2)
-        else decide (v.row = r1 ∨ v.row = r2) && decide (v.col = c1 ∨ v.col = c2)
-      if ok then setView s { v with r1 := r1, c1 := c1, r2 := r2, c2 := c2 } else s
-    | none => s
-  else s
+    let ok :=
+      if r1 = 1 ∧ r2 = LAST_ROW then decide (v.col = c1 ∨ v.col = c2)
+      else if c1 = 1 ∧ c2 = LAST_COLUMN then decide (v.row = r1 ∨ v.row = r2)
+      else decide (v.row = r1 ∨ v.row = r2) && decide (v.col = c1 ∨ v.col = c2)
+    if ok then some { v with r1 := r1, c1 := c1, r2 := r2, c2 := c2 } else none
+  else none
+
+def selRange (s : State) (r1 c1 r2 c2 : Int) : State := viewOp s fun sh => rangeView sh.view r1 c1 r2 c2
+
+/-- models ui.rs::set_top_left_visible_cell -/
+def topLeftView (v : View) (r c : Int) : Option View :=
+  if validCol c && validRow r then some { v with top := r, left := c } else none
+
+def setTopLeft (s : State) (r c : Int) : State := viewOp s fun sh => topLeftView sh.view r c
+
+/-! ### geometry and hidden rows / columns -/
+
+/-- default row height / column width in pixels (constants.rs; `ui_row_height` rounds) -/
+def ROW_H : Int := 25
+def COL_W : Int := 90
+
+/-- models worksheet.rs::is_row_hidden / is_column_hidden (`none` = `Err`: index off the grid) -/
+def rowHidden? (sh : Sheet) (r : Int) : Option Bool :=
+  if validRow r then some (sh.hidRows.contains r) else none
+def colHidden? (sh : Sheet) (c : Int) : Option Bool :=
+  if validCol c then some (sh.hidCols.contains c) else none
+
+/-- models ui.rs::ui_row_height / ui_column_width for default-sized rows and columns -/
+def rowH? (sh : Sheet) (r : Int) : Option Int :=
+  if validRow r then some (if sh.hidRows.contains r then 0 else ROW_H) else none
+def colW? (sh : Sheet) (c : Int) : Option Int :=
+  if validCol c then some (if sh.hidCols.contains c then 0 else COL_W) else none
+
+/-- `acc + Σ f x … f (x + n - 1)`; `none` as soon as one term fails -/
+def sumFrom (f : Int → Option Int) : Nat → Int → Int → Option Int
+  | 0, _, acc => some acc
+  | n + 1, x, acc =>
+    match f x with
+    | none => none
+    | some a => sumFrom f n (x + 1) (acc + a)
+
+/-- `Σ_{x = lo}^{hi} f x` (0 when `hi < lo`) -/
+def sumRange (f : Int → Option Int) (lo hi : Int) : Option Int := sumFrom f (hi - lo + 1).toNat lo 0
 
 /-- the `while` loops of the arrow keys: step over hidden rows / columns, at most `fuel` times,
     while `start` stays inside `1 ..= last` -/
@@ -150,35 +237,273 @@ def skipHidden (hid : List Int) (last step : Int) : Nat → Int → Int
 /-- the row / column an arrow key lands on (before the validity check) -/
 def arrowTarget (sh : Sheet) (d : Dir) : Int :=
   match d with
-  | .right => skipHidden sh.hidCols LAST_COLUMN 1 16385 (sh.view.col + 1)
-  | .left => skipHidden sh.hidCols LAST_COLUMN (-1) 16385 (sh.view.col - 1)
-  | .down => skipHidden sh.hidRows LAST_ROW 1 1048577 (sh.view.row + 1)
-  | .up => skipHidden sh.hidRows LAST_ROW (-1) 1048577 (sh.view.row - 1)
+  | .right => skipHidden sh.hidCols LAST_COLUMN 1 colFuel (sh.view.col + 1)
+  | .left => skipHidden sh.hidCols LAST_COLUMN (-1) colFuel (sh.view.col - 1)
+  | .down => skipHidden sh.hidRows LAST_ROW 1 rowFuel (sh.view.row + 1)
+  | .up => skipHidden sh.hidRows LAST_ROW (-1) rowFuel (sh.view.row - 1)
 
 def Dir.horizontal : Dir → Bool
   | .left | .right => true
   | _ => false
 
-/-- models ui.rs::on_arrow_right / on_arrow_left / on_arrow_up / on_arrow_down (selection part) -/
-def arrow (s : State) (d : Dir) : State :=
-  match s.sheets[s.selected]? with
-  | none => s
-  | some sh =>
-    let v := sh.view
-    let x := arrowTarget sh d
-    if d.horizontal then
-      if validCol x then setView s { v with col := x, r1 := v.row, c1 := x, r2 := v.row, c2 := x } else s
-    else
-      if validRow x then setView s { v with row := x, r1 := x, c1 := v.col, r2 := x, c2 := v.col } else s
+/-- the scroll position after an arrow key.  right: if the columns `left_column ..= new` are wider
+    than the window, `left_column += 1` (a failing width lookup aborts the key press); left / up: the
+    new cell becomes the first visible one when it is before it; down: rows
+    `top_row ..= min (new + 1) LAST_ROW` against the window height -/
+def arrowScroll (winW winH : Int) (sh : Sheet) (d : Dir) (x : Int) : Option Int :=
+  let v := sh.view
+  match d with
+  | .right => (sumRange (colW? sh) v.left x).map fun w => if w > winW then v.left + 1 else v.left
+  | .left => some (if x < v.left then x else v.left)
+  | .down =>
+    (sumRange (rowH? sh) v.top (min (x + 1) LAST_ROW)).map fun h => if h > winH then v.top + 1 else v.top
+  | .up => some (if x < v.top then x else v.top)
 
-/-- models ui.rs::on_area_selecting (selection part): the range keeps its *start* and ends at the
-    target; neither the target nor the position of the selected cell is checked.  (Targets beyond
-    the last row / column make the scrolling loops fail before anything is written; the harness
-    sends in-grid targets to the modelled suite.) -/
-def area (s : State) (r c : Int) : State :=
-  match s.sheets[s.selected]? with
-  | none => s
-  | some sh => setView s { sh.view with r2 := r, c2 := c }
+/-- models ui.rs::on_arrow_right / on_arrow_left / on_arrow_up / on_arrow_down -/
+def arrowView (winW winH : Int) (sh : Sheet) (d : Dir) : Option View :=
+  let v := sh.view
+  let x := arrowTarget sh d
+  if d.horizontal then
+    if validCol x then
+      (arrowScroll winW winH sh d x).map fun l =>
+        { v with col := x, r1 := v.row, c1 := x, r2 := v.row, c2 := x, left := l }
+    else none
+  else
+    if validRow x then
+      (arrowScroll winW winH sh d x).map fun t =>
+        { v with row := x, r1 := x, c1 := v.col, r2 := x, c2 := v.col, top := t }
+    else none
+
+def arrow (s : State) (d : Dir) : State := viewOp s fun sh => arrowView s.winW s.winH sh d
+
+/-- the second loop of `on_area_selecting`: `while size > window { size -= f first; first += 1 }` -/
+def shrinkFrom (f : Int → Option Int) (win : Int) : Nat → Int → Int → Option Int
+  | 0, _, _ => none
+  | fuel + 1, size, first =>
+    if size > win then
+      match f first with
+      | none => none
+      | some a => shrinkFrom f win fuel (size - a) (first + 1)
+    else some first
+
+/-- the scroll computation of `on_area_selecting` along one axis -/
+def areaScroll (f : Int → Option Int) (win first cell target : Int) (fuel : Nat) : Option Int :=
+  if target ≥ cell then
+    match sumRange f first target with
+    | none => none
+    | some size => shrinkFrom f win fuel size first
+  else if target < first then some target
+  else some first
+
+/-- models ui.rs::on_area_selecting: the range keeps its *start* and ends at the target; neither the
+    target nor the position of the selected cell is checked; the scroll position follows the target
+    (a size lookup off the grid aborts the call before anything is written) -/
+def areaView (winW winH : Int) (sh : Sheet) (r c : Int) : Option View :=
+  let v := sh.view
+  (areaScroll (colW? sh) winW v.left v.col c colFuel).bind fun newLeft =>
+    (areaScroll (rowH? sh) winH v.top v.row r rowFuel).map fun newTop =>
+      { v with r2 := r, c2 := c, top := newTop, left := newLeft }
+
+def area (s : State) (r c : Int) : State := viewOp s fun sh => areaView s.winW s.winH sh r c
+
+/-! ### page up / page down -/
+
+/-- `while height <= window { last += 1; height += h last? }` of on_page_down -/
+def pageDownLoop (f : Int → Option Int) (win : Int) : Nat → Int → Int → Option Int
+  | 0, _, _ => none
+  | fuel + 1, last, height =>
+    if height ≤ win then
+      match f (last + 1) with
+      | none => none
+      | some a => pageDownLoop f win fuel (last + 1) (height + a)
+    else some last
+
+/-- `while height <= window && first > 1 { first -= 1; height += h first? }` of on_page_up -/
+def pageUpLoop (f : Int → Option Int) (win : Int) : Nat → Int → Int → Option Int
+  | 0, _, _ => none
+  | fuel + 1, first, height =>
+    if height ≤ win ∧ first > 1 then
+      match f (first - 1) with
+      | none => none
+      | some a => pageUpLoop f win fuel (first - 1) (height + a)
+    else some first
+
+/-- the selected row after a page move to `newTop`: the offset to the top row is kept and
+    (repair of F28d / F28e) the result is clamped to the grid -/
+def pageRow (v : View) (newTop : Int) : Int := max 1 (min LAST_ROW (newTop + (v.row - v.top)))
+
+/-- the pinned tree's rule: no clamping -/
+def pageRowPinned (v : View) (newTop : Int) : Int := newTop + (v.row - v.top)
+
+def pageView (v : View) (rowOf : View → Int → Int) (newTop : Int) : View :=
+  { v with top := newTop, row := rowOf v newTop, r1 := rowOf v newTop, c1 := v.col,
+           r2 := rowOf v newTop, c2 := v.col }
+
+/-- models ui.rs::on_page_down (parametric in the row rule, to state the pinned behaviour too) -/
+def pageDownView (rowOf : View → Int → Int) (winH : Int) (sh : Sheet) : Option View :=
+  (rowH? sh sh.view.top).bind fun h0 =>
+    (pageDownLoop (rowH? sh) winH rowFuel sh.view.top h0).bind fun last =>
+      if validRow last then some (pageView sh.view rowOf last) else none
+
+/-- models ui.rs::on_page_up -/
+def pageUpView (rowOf : View → Int → Int) (winH : Int) (sh : Sheet) : Option View :=
+  (rowH? sh sh.view.top).bind fun h0 =>
+    (pageUpLoop (rowH? sh) winH rowFuel sh.view.top h0).map fun first => pageView sh.view rowOf first
+
+def pageDownWith (rowOf : View → Int → Int) (s : State) : State := viewOp s (pageDownView rowOf s.winH)
+def pageUpWith (rowOf : View → Int → Int) (s : State) : State := viewOp s (pageUpView rowOf s.winH)
+def pageDown : State → State := pageDownWith pageRow
+def pageUp : State → State := pageUpWith pageRow
+
+/-! ### navigate to edge -/
+
+def stepDir (d : Dir) (p : Int × Int) : Option (Int × Int) :=
+  if (p.1 = 1 ∧ d = .up) ∨ (p.1 = LAST_ROW ∧ d = .down) ∨ (p.2 = 1 ∧ d = .left)
+      ∨ (p.2 = LAST_COLUMN ∧ d = .right) then none
+  else some (match d with
+    | .left => (p.1, p.2 - 1)
+    | .right => (p.1, p.2 + 1)
+    | .up => (p.1 - 1, p.2)
+    | .down => (p.1 + 1, p.2))
+
+/-- models worksheet.rs::walk_in_direction: (found cell, previous cell) -/
+def walk (pred : Int × Int → Bool) (d : Dir) : Nat → Int × Int → Option (Int × Int) → Option (Int × Int) × (Int × Int)
+  | 0, prev, cur => (cur, prev)
+  | fuel + 1, prev, cur =>
+    match cur with
+    | none => (none, prev)
+    | some cell => if pred cell then (some cell, prev) else walk pred d fuel cell (stepDir d cell)
+
+/-- models worksheet.rs::navigate_to_edge_in_direction for a start cell inside the grid -/
+def edgeTarget (sh : Sheet) (d : Dir) (start : Int × Int) : Int × Int :=
+  let nonEmpty := fun p => sh.filled.contains p
+  match stepDir d start with
+  | none => start
+  | some nb =>
+    if !(nonEmpty start) || !(nonEmpty nb) then
+      match walk nonEmpty d rowFuel start (stepDir d start) with
+      | (some c, _) => c
+      | (none, prev) => prev
+    else (walk (fun p => !(nonEmpty p)) d rowFuel start (stepDir d start)).2
+
+/-- `c = new; size = f c?; while c > 1 && size <= window { c -= 1; size += f c? }` of the edge scroll -/
+def backLoop (f : Int → Option Int) (win : Int) : Nat → Int → Int → Option Int
+  | 0, _, _ => none
+  | fuel + 1, c, size =>
+    if c > 1 ∧ size ≤ win then
+      match f (c - 1) with
+      | none => none
+      | some a => backLoop f win fuel (c - 1) (size + a)
+    else some c
+
+def edgeScroll (f : Int → Option Int) (win first new : Int) (fuel : Nat) : Option Int :=
+  if new < first then some new
+  else
+    (f new).bind fun a =>
+      (backLoop f win fuel new a).map fun c => if c > first then c else first
+
+/-- models ui.rs::on_navigate_to_edge_in_direction -/
+def edgeView (winW winH : Int) (sh : Sheet) (d : Dir) : Option View :=
+  let v := sh.view
+  if validRow v.row && validCol v.col then
+    let p := edgeTarget sh d (v.row, v.col)
+    if validRow p.1 && validCol p.2 then
+      if p.1 = v.row ∧ p.2 = v.col then none
+      else
+        let scrolled : Option (Int × Int) :=
+          if d.horizontal then (edgeScroll (colW? sh) winW v.left p.2 colFuel).map fun l => (v.top, l)
+          else (edgeScroll (rowH? sh) winH v.top p.1 rowFuel).map fun t => (t, v.left)
+        scrolled.map fun tl =>
+          { v with row := p.1, col := p.2, r1 := p.1, c1 := p.2, r2 := p.1, c2 := p.2,
+                   top := tl.1, left := tl.2 }
+    else none
+  else none
+
+def edge (s : State) (d : Dir) : State := viewOp s fun sh => edgeView s.winW s.winH sh d
+
+/-! ### keyboard range expansion -/
+
+/-- `while x < last && hidden x? { x += 1 }` / `while x > 1 && hidden x? { x -= 1 }` -/
+def skipUp (hid : Int → Option Bool) (last : Int) : Nat → Int → Option Int
+  | 0, _ => none
+  | fuel + 1, x =>
+    if x < last then
+      match hid x with
+      | none => none
+      | some true => skipUp hid last fuel (x + 1)
+      | some false => some x
+    else some x
+
+def skipDown (hid : Int → Option Bool) : Nat → Int → Option Int
+  | 0, _ => none
+  | fuel + 1, x =>
+    if x > 1 then
+      match hid x with
+      | none => none
+      | some true => skipDown hid fuel (x - 1)
+      | some false => some x
+    else some x
+
+/-- `set_top_left_visible_cell(t, l)?` followed by `set_selected_range(…)?`: the scroll position is
+    written first and stays when the range is refused -/
+def scrolledRange (v : View) (t l : Int) (r1 c1 r2 c2 : Int) : Option View :=
+  (topLeftView v t l).map fun v' => (rangeView v' r1 c1 r2 c2).getD v'
+
+/-- models ui.rs::on_expand_selected_range (shift + arrow).  The selection goes through
+    `set_selected_range`, so it is validated -/
+def expandView (winW winH : Int) (sh : Sheet) (d : Dir) : Option View :=
+  let v := sh.view
+  if (!d.horizontal) && v.r1 = 1 && v.r2 = LAST_ROW then none
+  else if d.horizontal && v.c1 = 1 && v.c2 = LAST_COLUMN then none
+  else
+    match d with
+    | .right =>
+      if v.col > v.c1 then
+        (skipUp (colHidden? sh) LAST_COLUMN colFuel (v.c1 + 1)).bind fun n =>
+          if validCol n then rangeView v v.r1 n v.r2 v.c2 else none
+      else
+        (skipUp (colHidden? sh) LAST_COLUMN colFuel (v.c2 + 1)).bind fun n =>
+          if validCol n then
+            (sumRange (colW? sh) v.left n).bind fun w =>
+              if w > winW then scrolledRange v v.top (v.left + 1) v.r1 v.c1 v.r2 n
+              else rangeView v v.r1 v.c1 v.r2 n
+          else none
+    | .left =>
+      if v.col < v.c2 then
+        (skipDown (colHidden? sh) colFuel (v.c2 - 1)).bind fun n =>
+          if validCol n then
+            if n < v.left then scrolledRange v v.top n v.r1 v.c1 v.r2 n
+            else rangeView v v.r1 v.c1 v.r2 n
+          else none
+      else
+        (skipDown (colHidden? sh) colFuel (v.c1 - 1)).bind fun n =>
+          if validCol n then
+            if n < v.left then scrolledRange v v.top n v.r1 n v.r2 v.c2
+            else rangeView v v.r1 n v.r2 v.c2
+          else none
+    | .up =>
+      if v.row < v.r2 then
+        (skipDown (rowHidden? sh) rowFuel (v.r2 - 1)).bind fun n =>
+          if validRow n then rangeView v v.r1 v.c1 n v.c2 else none
+      else
+        (skipDown (rowHidden? sh) rowFuel (v.r1 - 1)).bind fun n =>
+          if validRow n then
+            if n < v.top then scrolledRange v n v.left n v.c1 v.r2 v.c2
+            else rangeView v n v.c1 v.r2 v.c2
+          else none
+    | .down =>
+      if v.row > v.r1 then
+        (skipUp (rowHidden? sh) LAST_ROW rowFuel (v.r1 + 1)).bind fun n =>
+          if validRow n then rangeView v n v.c1 v.r2 v.c2 else none
+      else
+        (skipUp (rowHidden? sh) LAST_ROW rowFuel (v.r2 + 1)).bind fun n =>
+          if validRow n then
+            (sumRange (rowH? sh) v.top (n + 1)).bind fun h =>
+              if h ≥ winH then scrolledRange v (v.top + 1) v.left v.r1 v.c1 n v.c2
+              else rangeView v v.r1 v.c1 n v.c2
+          else none
+
+def expand (s : State) (d : Dir) : State := viewOp s fun sh => expandView s.winW s.winH sh d
 
 /-! ### sheet operations of common.rs -/
 
@@ -187,7 +512,7 @@ def push (s : State) (d : Diff) : State := { s with undo := d :: s.undo, redo :=
 /-- models common.rs::new_sheet -/
 def newSheet (s : State) : State :=
   let n := s.sheets.length
-  let s1 := { s with sheets := s.sheets ++ [⟨s.nextId, true, View.default, [], []⟩], nextId := s.nextId + 1 }
+  let s1 := { s with sheets := s.sheets ++ [Sheet.fresh s.nextId], nextId := s.nextId + 1 }
   push (selSheet s1 n) (.newSheet n s.nextId)
 
 /-- models common.rs::duplicate_sheet (the copy is a clone: same view and state) -/
@@ -259,6 +584,104 @@ def moveSheet (s : State) (frm to : Nat) : State :=
     let s1 := { s with sheets := moveList s.sheets frm to }
     push (selSheet s1 (afterMove s.selected frm to)) (.moveSheet frm to)
 
+/-! ### hiding rows / columns, typing a value -/
+
+/-- set membership update of a hidden-set -/
+def setHid (l : List Int) (x : Int) (b : Bool) : List Int :=
+  if b then (if l.contains x then l else x :: l) else l.filter (· != x)
+
+/-- the `for x in a..=b` loop of set_rows_hidden / set_columns_hidden on a hidden-set: new set and
+    the recorded (index, old value) pairs, in order -/
+def hideLoop (hidden : Bool) : Nat → Int → List Int → List (Int × Bool) → List Int × List (Int × Bool)
+  | 0, _, l, olds => (l, olds.reverse)
+  | n + 1, x, l, olds => hideLoop hidden n (x + 1) (setHid l x hidden) ((x, l.contains x) :: olds)
+
+/-- `while x <= last && hidden x? { x += 1 }` -/
+def skipUpLe (hid : Int → Option Bool) (last : Int) : Nat → Int → Option Int
+  | 0, _ => none
+  | fuel + 1, x =>
+    if x ≤ last then
+      match hid x with
+      | none => none
+      | some true => skipUpLe hid last fuel (x + 1)
+      | some false => some x
+    else some x
+
+/-- `while x >= 1 && hidden x? { x -= 1 }` -/
+def skipDownGe (hid : Int → Option Bool) : Nat → Int → Option Int
+  | 0, _ => none
+  | fuel + 1, x =>
+    if x ≥ 1 then
+      match hid x with
+      | none => none
+      | some true => skipDownGe hid fuel (x - 1)
+      | some false => some x
+    else some x
+
+/-- the visible row / column selected after hiding `a ..= b`: the next visible one, else the previous
+    visible one, else 1 -/
+def afterHide (hid : Int → Option Bool) (last : Int) (fuel : Nat) (a b : Int) : Option Int :=
+  match skipUpLe hid last fuel (b + 1) with
+  | none => none
+  | some x =>
+    if x > last then
+      match skipDownGe hid fuel (a - 1) with
+      | none => none
+      | some y => some (if y < 1 then 1 else y)
+    else some x
+
+/-- models common.rs::validate_row_range / validate_column_range -/
+def rangeValid (valid : Int → Bool) (a b : Int) : Bool := if a ≤ b then valid a && valid b else true
+
+/-- models common.rs::set_rows_hidden: validate, hide row by row, then (when hiding rows of the
+    selected sheet) select the whole next visible row; the diff list is pushed last, so a failure of
+    the selection part leaves the rows hidden without a history entry -/
+def hideRows (s : State) (sheet : Nat) (a b : Int) (hidden : Bool) : State :=
+  match s.sheets[sheet]? with
+  | none => s
+  | some sh =>
+    if rangeValid validRow a b then
+      let (hid, olds) := hideLoop hidden (b - a + 1).toNat a sh.hidRows []
+      let sh1 := { sh with hidRows := hid }
+      let s1 := modSheet s sheet (fun x => { x with hidRows := hid })
+      if hidden && s.selected == sheet then
+        match afterHide (rowHidden? sh1) LAST_ROW rowFuel a b with
+        | none => s1
+        | some r => push (selRange (selCell s1 r 1) r 1 r LAST_COLUMN) (.setRowsHidden sheet olds hidden)
+      else push s1 (.setRowsHidden sheet olds hidden)
+    else s
+
+/-- models common.rs::set_columns_hidden -/
+def hideCols (s : State) (sheet : Nat) (a b : Int) (hidden : Bool) : State :=
+  match s.sheets[sheet]? with
+  | none => s
+  | some sh =>
+    if rangeValid validCol a b then
+      let (hid, olds) := hideLoop hidden (b - a + 1).toNat a sh.hidCols []
+      let sh1 := { sh with hidCols := hid }
+      let s1 := modSheet s sheet (fun x => { x with hidCols := hid })
+      if hidden && s.selected == sheet then
+        match afterHide (colHidden? sh1) LAST_COLUMN colFuel a b with
+        | none => s1
+        | some c => push (selRange (selCell s1 1 c) 1 c LAST_ROW c) (.setColsHidden sheet olds hidden)
+      else push s1 (.setColsHidden sheet olds hidden)
+    else s
+
+/-- models common.rs::set_user_input of a plain one-line value into a *visible* row (typing into a
+    hidden row also resizes it, which is outside the model: there the command is skipped, in the
+    harness as well) -/
+def input (s : State) (sheet : Nat) (r c : Int) : State :=
+  if validCol c && validRow r then
+    match s.sheets[sheet]? with
+    | none => s
+    | some sh =>
+      if sh.hidRows.contains r then s
+      else
+        let old := sh.filled.contains (r, c)
+        push (modSheet s sheet (fun x => { x with filled := if old then x.filled else (r, c) :: x.filled }))
+          (.setCell sheet r c old)
+  else s
+
 /-! ### undo / redo arms of undo_redo.rs -/
 
 /-- models the sheet arms of undo_redo.rs::apply_undo_diff_list; an `Err` of a model call (`?`) leaves
@@ -286,6 +709,12 @@ def applyUndo (s : State) : Diff → State
     if s.sheets.any (fun x => x.sid == old.sid) ∨ idx > s.sheets.length then s
     else
       selSheet { s with sheets := insertAt s.sheets idx { old with view := View.default } } idx
+  | .setRowsHidden sheet olds _ =>
+    modSheet s sheet (fun x => { x with hidRows := olds.foldl (fun l p => setHid l p.1 p.2) x.hidRows })
+  | .setColsHidden sheet olds _ =>
+    modSheet s sheet (fun x => { x with hidCols := olds.foldl (fun l p => setHid l p.1 p.2) x.hidCols })
+  | .setCell sheet r c old =>
+    modSheet s sheet (fun x => { x with filled := if old then x.filled else x.filled.filter (· != (r, c)) })
 
 /-- models the sheet arms of undo_redo.rs::apply_diff_list (redo, and remote diffs) -/
 def applyRedo (s : State) : Diff → State
@@ -295,7 +724,7 @@ def applyRedo (s : State) : Diff → State
     else selSheet { s with sheets := removeAt s.sheets idx } (afterDelete s.selected idx n)
   | .newSheet idx sid =>
     if s.sheets.any (fun x => x.sid == sid) ∨ idx > s.sheets.length then s
-    else selSheet { s with sheets := insertAt s.sheets idx ⟨sid, true, View.default, [], []⟩ } idx
+    else selSheet { s with sheets := insertAt s.sheets idx (Sheet.fresh sid) } idx
   | .duplicateSheet src new =>
     match s.sheets[src]? with
     | none => s
@@ -309,6 +738,12 @@ def applyRedo (s : State) : Diff → State
     else selSheet { s with sheets := moveList s.sheets frm to } (afterMove s.selected frm to)
   | .setState idx _ new =>
     { s with sheets := modifyAt s.sheets idx (fun x => { x with visible := new }) }
+  | .setRowsHidden sheet olds new =>
+    modSheet s sheet (fun x => { x with hidRows := olds.foldl (fun l p => setHid l p.1 new) x.hidRows })
+  | .setColsHidden sheet olds new =>
+    modSheet s sheet (fun x => { x with hidCols := olds.foldl (fun l p => setHid l p.1 new) x.hidCols })
+  | .setCell sheet r c _ =>
+    modSheet s sheet (fun x => { x with filled := if x.filled.contains (r, c) then x.filled else (r, c) :: x.filled })
 
 /-- models common.rs::undo + history.rs::History::undo -/
 def undo (s : State) : State :=
@@ -336,6 +771,16 @@ def step (s : State) : Cmd → State
   | .moveSheet f t => moveSheet s f t
   | .undo => undo s
   | .redo => redo s
+  | .setTopLeft r c => setTopLeft s r c
+  | .setWinW w => { s with winW := w }
+  | .setWinH h => { s with winH := h }
+  | .pageDown => pageDown s
+  | .pageUp => pageUp s
+  | .edge d => edge s d
+  | .expand d => expand s d
+  | .hideRows sheet a b h => hideRows s sheet a b h
+  | .hideCols sheet a b h => hideCols s sheet a b h
+  | .input sheet r c => input s sheet r c
 
 def run (s : State) (cmds : List Cmd) : State := cmds.foldl step s
 
